@@ -195,9 +195,13 @@ func canon(v interface{}) string {
 }
 
 func runLogQuery(name, text string) qres {
+	return runLogQueryRange(name, text, tsBase-1000, tsBase+100000000)
+}
+
+func runLogQueryRange(name, text string, startEpoch, endEpoch uint64) qres {
 	qid++
 	req := map[string]interface{}{
-		"searchText": text, "indexName": indexName, "startEpoch": tsBase - 1000, "endEpoch": tsBase + 100000000,
+		"searchText": text, "indexName": indexName, "startEpoch": startEpoch, "endEpoch": endEpoch,
 		"size": uint64(1000), "from": uint64(0), "queryLanguage": "Splunk QL", "state": "query",
 	}
 	out := qres{Name: name}
@@ -429,11 +433,12 @@ func decodeOne(c decCase, tmp string) (o decOut) {
 		p := tmp + ".bsu"
 		_ = os.WriteFile(p, c.Data, 0o644)
 		sums, allBmi, err := microreader.ReadBlockSummaries(p, false)
-		if err != nil {
-			return decOut{Code: 1, Msg: err.Error()}
-		}
 		for _, s := range sums {
 			o.Sums = append(o.Sums, [3]uint64{s.HighTs, s.LowTs, uint64(s.RecCount)})
+		}
+		if err != nil {
+			// the summaries parsed before the damage come back together with the error (model: read_bsu_p)
+			return decOut{Code: 1, Msg: err.Error(), Sums: o.Sums}
 		}
 		idxName := map[int]string{}
 		for n, i := range allBmi.CnameDict {
